@@ -48,6 +48,7 @@ func c06(c *Ctx) {
 	r.Floor("R3.single-helper", 4)
 	r.Floor("R4.refusal", 2)
 	r.Floor("R5.radius-writers", 2)
+	r.Floor("R6.admission-under-lock", 1)
 	m, why := newStoreModel(c)
 	if m == nil {
 		r.Fail("R1.byte-order", "radius-store", "-", why)
@@ -220,6 +221,42 @@ func c06(c *Ctx) {
 		}
 		if n < 4 {
 			r.Fail("R3.single-helper", "call sites", "-", fmt.Sprintf("only %d call sites of the in-range helper (offer filtering v0/v1, store RPC, gossip expected)", n))
+		}
+	}
+
+	// ---------------- R6 admission and commit are one critical section: the radius read that
+	// admits an item happens with the same mutex held under which prune lowers the radius
+	// (otherwise a put admitted against the old radius commits after a concurrent prune and an
+	// item beyond the advertised radius is retained)
+	{
+		readsRadius := func(f *ssa.Function) bool {
+			return f != nil && core.InModule(f) && core.ReachesInstr(f, 2, func(in ssa.Instruction) bool {
+				ci, ok := in.(ssa.CallInstruction)
+				return ok && core.CalleeID(ci) == atomicValLoad && len(ci.Common().Args) > 0 && m.isField(ci.Common().Args[0], m.radFld)
+			})
+		}
+		sites := map[*ssa.Function][]core.LockSite{}
+		core.Calls(m.put, func(ci ssa.CallInstruction) {
+			direct := core.CalleeID(ci) == atomicValLoad && len(ci.Common().Args) > 0 && m.isField(ci.Common().Args[0], m.radFld)
+			if direct || readsRadius(core.StaticCalleeFn(ci)) {
+				sites[m.put] = append(sites[m.put], core.LockSite{Instr: ci, What: "radius read for admission"})
+			}
+		})
+		if len(sites[m.put]) == 0 {
+			r.Fail("R6.admission-under-lock", core.FuncName(m.put), p.Pos(m.put.Pos()), "Put no longer reads the radius before writing")
+		} else if len(m.mutexes) == 0 {
+			r.Fail("R6.admission-under-lock", core.FuncName(m.put), p.Pos(m.put.Pos()), "the store has no mutex: admission against the radius and the commit are not atomic with respect to prune")
+		} else {
+			lock := core.LockSpec{Type: m.typName, Field: m.mutexes[0]}
+			viols := p.CheckLockDiscipline(lock, sites, func(f *ssa.Function) bool { return f == m.ctor })
+			bad := map[ssa.Instruction]bool{}
+			for _, v := range viols {
+				bad[v.Site] = true
+			}
+			for i, st := range sites[m.put] {
+				r.Check(!bad[st.Instr], "R6.admission-under-lock", fmt.Sprintf("%s radius-read #%d", core.FuncName(m.put), i+1), p.Pos(core.InstrPos(st.Instr)),
+					lock.String()+" held when the radius is read for admission", "the radius is read for admission without "+lock.String()+": a concurrent prune can lower the radius between this test and the commit, and an item beyond the advertised radius is retained")
+			}
 		}
 	}
 
@@ -549,7 +586,7 @@ func c17(c *Ctx) {
 	// ---- R4
 	okGet := true
 	for _, ret := range core.Returns(m.get) {
-		v := ret.Results[0]
+		v := core.ResolveSpill(ret.Results[0])
 		if core.IsNilConst(v) {
 			continue
 		}
